@@ -207,12 +207,12 @@ def shards(tier: str) -> List[Dict[str, Any]]:
             if target in GENERIC and not all(r in GENERIC[target] for r in TEMPLATES[template]):
                 continue  # the schema targets have no names for enumerations / literals
             for la, lb in itertools.product(range(1, top + 1), repeat=2):
-                if la > lb or (tier == "quick" and la + lb > 5):
-                    continue
-                deep = (la + lb >= 5) if tier == "quick" else (la + lb >= 8)
+                if la > lb or (tier == "quick" and (la + lb > 4 or lb > 2)):
+                    continue  # quick: 1/1, 1/2, 2/2 (2/2 holds every kind of collision found so far); the rest is thorough
+                deep = la + lb >= 7
                 out.append({"name": f"{template},{target},len={la}/{lb}",
                             "params": {"template": template, "len_a": la, "len_b": lb, "targets": [target]},
-                            "budget_s": (60 if deep else 150) if tier == "quick" else 1800, "per_path_timeout": 60,
+                            "budget_s": 150 if tier == "quick" else (600 if deep else 1200), "per_path_timeout": 60,
                             **({"exploratory": True} if deep else {})})
     return out
 
@@ -223,7 +223,7 @@ def describe(tier: str) -> Dict[str, Any]:
                       "aas_core_codegen.naming.json_property", "aas_core_codegen.naming.xml_class_name",
                       "aas_core_codegen.naming.xml_property"] + [f"aas_core_codegen.{t}.lib._generate_types.verify" for t in LANGS] + [
                       "aas_core_codegen.jsonschema.main.generate", "aas_core_codegen.xsd.main._generate"],
-        "bounds": "two different identifiers a, b of 1..3 characters with at most 5 in total (thorough 1..4 each) over {a, b, A, B, _, 1} (identifier shape of the "
+        "bounds": "two different identifiers a, b of 1..2 characters (thorough 1..4 each; pairs of 7 or 8 characters in total are exploratory) over {a, b, A, B, _, 1} (identifier shape of the "
                   "meta-model language) in five scopes: two properties of a class, an inherited and an own property, two classes (of identical shape), a class and an enumeration, two literals "
                   "of an enumeration. Symbolic part: every naming function of the eight targets is executed on the symbolic pair; each "
                   "path on which two generated names coincide yields a witness. Concrete part: the witness becomes a meta-model; if the "
